@@ -10,6 +10,7 @@
 //   o. output              : data::Solution / RestartValue convertFromSI/convertToSI per measure
 // The reference factors come from data/C02_units.ref (hand-written exact definitions).
 #include "vf.hpp"
+#include "C02_ref.hpp"
 #include "sched_includes.hpp"
 #include <opm/input/eclipse/Deck/UDAValue.hpp>
 #include <opm/input/eclipse/EclipseState/Tables/FlatTable.hpp>
@@ -41,155 +42,6 @@ static const char* SYSN[5] = {"METRIC", "FIELD", "LAB", "PVT-M", "INPUT"};
 static const UnitSystem::UnitType SYST[5] = {UnitSystem::UnitType::UNIT_TYPE_METRIC, UnitSystem::UnitType::UNIT_TYPE_FIELD,
     UnitSystem::UnitType::UNIT_TYPE_LAB, UnitSystem::UnitType::UNIT_TYPE_PVT_M, UnitSystem::UnitType::UNIT_TYPE_INPUT};
 static const double EPS = std::numeric_limits<double>::epsilon();
-
-static std::string trim(const std::string& s) {
-    size_t a = s.find_first_not_of(" \t\r\n"), b = s.find_last_not_of(" \t\r\n");
-    return a == std::string::npos ? "" : s.substr(a, b - a + 1);
-}
-static std::vector<std::string> split(const std::string& s, char c) {
-    std::vector<std::string> v; std::string cur;
-    for (char ch : s) { if (ch == c) { v.push_back(cur); cur.clear(); } else cur += ch; }
-    v.push_back(cur); return v;
-}
-static std::vector<std::string> words(const std::string& s) { std::istringstream is(s); std::vector<std::string> v; std::string w; while (is >> w) v.push_back(w); return v; }
-static bool releq(double got, double want, double rel, double extra_abs = 0) {
-    if (std::isnan(got) || std::isnan(want)) return false;
-    return std::fabs(got - want) <= rel * std::fabs(want) + extra_abs;
-}
-
-// ===================================================== reference table ======
-struct Aff {                       // SI = s * x + o
-    double s = 1, o = 0;
-    bool nan = false;              // context dependent
-    bool ok = true;                // expression could be evaluated
-    bool offset_in_composite = false;
-    bool unverified = false;
-    std::string err;
-    double to_si(double x) const { return s * x + o; }
-    double from_si(double v) const { return (v - o) / s; }
-};
-
-struct Entry { std::string name; std::string expr[4]; std::string unverified; };
-
-struct Ref {
-    struct Line { std::string kind, name, expr, label; };
-    std::vector<Line> unit_lines;                 // unit / check / affine, in file order
-    std::map<std::string, std::vector<std::pair<std::string, std::string>>> alts;   // name -> (expr,label)
-    std::vector<Entry> quantities, measures;
-    // evaluated under the current alt choice:
-    std::map<std::string, double> unit;
-    std::map<std::string, std::pair<double, double>> affine;
-    int alt_choice = 0; std::string alt_name, alt_label = "primary definition";
-
-    // strict left-to-right product/quotient; lookup gives the value of a name
-    template <class L> static double ltr(const std::string& e, L&& lookup) {
-        double acc = 1; char op = '*'; std::string tok;
-        auto flush = [&]() {
-            std::string t = trim(tok); tok.clear();
-            if (t.empty()) throw std::runtime_error("empty factor in expression '" + e + "'");
-            int pw = 1; size_t h = t.find('^');
-            if (h != std::string::npos) { pw = std::atoi(t.c_str() + h + 1); t = trim(t.substr(0, h)); if (pw < 1) throw std::runtime_error("bad power in '" + e + "'"); }
-            double v;
-            if (std::isdigit((unsigned char)t[0]) || t[0] == '.') { char* end = nullptr; v = std::strtod(t.c_str(), &end); if (*end) throw std::runtime_error("bad number '" + t + "' in '" + e + "'"); }
-            else v = lookup(t);
-            double p = 1; for (int i = 0; i < pw; ++i) p *= v;
-            acc = op == '*' ? acc * p : acc / p;
-        };
-        for (char c : e) { if (c == '*' || c == '/') { flush(); op = c; } else tok += c; }
-        flush();
-        return acc;
-    }
-    double unit_value(const std::string& n) const { auto it = unit.find(n); if (it == unit.end()) throw std::runtime_error("C02_units.ref: unknown unit '" + n + "'"); return it->second; }
-
-    void load(const std::string& fn) {
-        std::ifstream f(fn); if (!f) throw std::runtime_error("cannot open " + fn);
-        std::string l;
-        while (std::getline(f, l)) {
-            size_t h = l.find('#'); if (h != std::string::npos) l = l.substr(0, h);
-            l = trim(l); if (l.empty()) continue;
-            std::string note; size_t sc = l.find(';');
-            if (sc != std::string::npos) { note = trim(l.substr(sc + 1)); l = trim(l.substr(0, sc)); }
-            size_t sp = l.find_first_of(" \t"); std::string kind = l.substr(0, sp), rest = trim(l.substr(sp));
-            if (kind == "unit" || kind == "check" || kind == "alt" || kind == "affine") {
-                size_t eq = rest.find('='); if (eq == std::string::npos) throw std::runtime_error("C02_units.ref: no '=' in: " + l);
-                Line ln{kind, trim(rest.substr(0, eq)), trim(rest.substr(eq + 1)), note};
-                if (kind == "alt") alts[ln.name].push_back({ln.expr, note}); else unit_lines.push_back(ln);
-            } else if (kind == "quantity" || kind == "measure") {
-                size_t co = rest.find(':'); if (co == std::string::npos) throw std::runtime_error("C02_units.ref: no ':' in: " + l);
-                Entry e; e.name = trim(rest.substr(0, co));
-                auto parts = split(rest.substr(co + 1), '|'); if (parts.size() != 4) throw std::runtime_error("C02_units.ref: need 4 systems in: " + l);
-                for (int s = 0; s < 4; ++s) e.expr[s] = trim(parts[s]);
-                if (!note.empty()) { if (note.rfind("unverified", 0) != 0) throw std::runtime_error("C02_units.ref: unknown note in: " + l); e.unverified = note; }
-                (kind == "quantity" ? quantities : measures).push_back(e);
-            } else throw std::runtime_error("C02_units.ref: unknown line kind '" + kind + "'");
-        }
-        if (alts.size() > 1) throw std::runtime_error("C02_units.ref: only one unit may have alternatives");
-        if (!alts.empty()) alt_name = alts.begin()->first;
-        choose(0);
-    }
-    int nchoices() const { return alts.empty() ? 1 : 1 + (int)alts.begin()->second.size(); }
-    void choose(int k) {
-        alt_choice = k; unit.clear(); affine.clear();
-        auto lk = [&](const std::string& n) { return unit_value(n); };
-        for (auto& ln : unit_lines) {
-            if (ln.kind == "unit") {
-                std::string ex = ln.expr;
-                if (k > 0 && ln.name == alt_name) { ex = alts[alt_name][k - 1].first; alt_label = alts[alt_name][k - 1].second; }
-                if (k == 0) alt_label = "primary definition";
-                unit[ln.name] = ltr(ex, lk);
-            } else if (ln.kind == "check") {
-                if (k > 0 && ln.name == alt_name) continue;
-                double a = unit_value(ln.name), b = ltr(ln.expr, lk);
-                if (!releq(a, b, 1e-14)) throw std::runtime_error("C02_units.ref: the two derivations of '" + ln.name + "' disagree: " + vf::fmt17(a) + " vs " + vf::fmt17(b));
-            } else if (ln.kind == "affine") {
-                affine[ln.name] = {ltr(ln.expr, lk), ltr(ln.label, lk)};     // label slot = text after ';' = offset expression
-            }
-        }
-    }
-    // unit expression of a quantity/measure entry -> Aff
-    Aff eval_units(const std::string& e) const {
-        Aff a;
-        if (e == "nan") { a.nan = true; a.s = std::numeric_limits<double>::quiet_NaN(); return a; }
-        auto af = affine.find(e);
-        if (af != affine.end()) { a.s = af->second.first; a.o = af->second.second; return a; }
-        a.s = ltr(e, [&](const std::string& n) { if (affine.count(n)) throw std::runtime_error("affine unit inside a product: " + e); return unit_value(n); });
-        return a;
-    }
-    const Entry* quantity(const std::string& n) const { for (auto& q : quantities) if (q.name == n) return &q; return nullptr; }
-    const Entry* measure(const std::string& n) const { for (auto& q : measures) if (q.name == n) return &q; return nullptr; }
-    // reference value of a named dimension in system sys (0..3, 4 = INPUT: SI itself)
-    Aff named(int sys, const std::string& n) const {
-        const Entry* q = quantity(n);
-        if (!q) { Aff a; a.ok = false; a.err = "quantity '" + n + "' is not in C02_units.ref"; return a; }
-        if (sys == 4) { Aff a; a.unverified = !q->unverified.empty(); return a; }
-        Aff a = eval_units(q->expr[sys]); a.unverified = !q->unverified.empty(); return a;
-    }
-    // product of named dimensions; opm == true : grammar of the keyword JSON ("A*B/C*D" = A*B/(C*D), at most one '/')
-    //                              opm == false: grammar of the .ref files (strict left to right)
-    Aff dim(int sys, const std::string& d, bool opm) const {
-        Aff r; std::vector<std::pair<std::string, bool>> fac;   // (name, in denominator)
-        if (opm) {
-            auto p = split(d, '/');
-            if (p.size() > 2) { r.ok = false; r.err = "more than one '/'"; return r; }
-            for (size_t k = 0; k < p.size(); ++k) for (auto& t : split(p[k], '*')) fac.push_back({trim(t), k == 1});
-        } else {
-            bool den = false; std::string tok;
-            for (char c : d) { if (c == '*' || c == '/') { fac.push_back({trim(tok), den}); tok.clear(); den = c == '/'; } else tok += c; }
-            fac.push_back({trim(tok), den});
-        }
-        for (auto& [n, den] : fac) {
-            Aff q = named(sys, n);
-            if (!q.ok) return q;
-            r.unverified = r.unverified || q.unverified;
-            if (q.o != 0) { if (fac.size() > 1) { r.offset_in_composite = true; continue; } return q; }
-            if (q.nan) { r.nan = true; continue; }
-            r.s = den ? r.s / q.s : r.s * q.s;
-        }
-        if (r.nan) r.s = std::numeric_limits<double>::quiet_NaN();
-        return r;
-    }
-};
-static Ref REF;
 
 static const std::vector<std::pair<M, const char*>> MEAS = {
     {M::identity, "identity"}, {M::length, "length"}, {M::time, "time"}, {M::runtime, "runtime"}, {M::density, "density"}, {M::pressure, "pressure"},
